@@ -838,18 +838,16 @@ theorem C12_dataclass_list_nec_witness :
 /-! ### Union targets: the stages built from the flags (rule.py:381-431) -/
 
 open Utv.C12M in
-/-- **C12_union_ndl**: a Union parsed with no_data_loss (alone or together with no_explicit_cast) returns
-exactly what it returns without preferences — for *every* member converter: the stages a preference leaves
-are a prefix-compatible selection of the lenient stages (strict stage first, then the no-loss stage). -/
-theorem C12_union_ndl (conv : Flags → Target → V → Outcome V) (n : Bool) (ts : List Target) (v r : V)
-    (h : unionParse conv ⟨n, true⟩ ts v = .ok r) : unionParse conv ⟨false, false⟩ ts v = .ok r := by
-  unfold unionParse at h ⊢
+/-- the stage skeleton with no_data_loss (alone or with no_explicit_cast) returns its lenient result, for
+every pass function -/
+theorem unionStages_ndl (exact : Bool) (pass : Flags → Outcome (Option V)) (n : Bool) (v r : V)
+    (h : unionStages exact pass ⟨n, true⟩ v = .ok r) : unionStages exact pass ⟨false, false⟩ v = .ok r := by
+  unfold unionStages at h ⊢
   split at h
   · rename_i h1; simp only [h1, if_true]; exact h
   · rename_i h1; simp only [h1]
     cases n
-    · -- no_data_loss only: strict stage, then the context's own flags = the lenient run's no-loss stage
-      simp only [Bool.not_true, Bool.not_false, Bool.false_or, Bool.or_true, Bool.true_or, Bool.false_and, Bool.and_false,
+    · simp only [Bool.not_true, Bool.not_false, Bool.or_true, Bool.true_or, Bool.false_and, Bool.and_false,
         if_true, Bool.false_eq_true, if_false, Bool.true_and, Outcome.ok_bind] at h ⊢
       obtain ⟨s2, hs2, h2⟩ := Outcome.bind_eq_ok.mp h
       simp only [hs2, Outcome.ok_bind]
@@ -862,14 +860,33 @@ theorem C12_union_ndl (conv : Flags → Target → V → Outcome V) (n : Bool) (
         cases s4 with
         | some x => exact h4
         | none => simp at h4
-    · -- both preferences: only the last stage runs, with both flags = the lenient run's strict stage
-      simp only [Bool.not_true, Bool.or_self, Bool.false_eq_true, if_false, Bool.and_self, Outcome.ok_bind] at h
+    · simp only [Bool.not_true, Bool.or_self, Bool.false_eq_true, if_false, Bool.and_self, Outcome.ok_bind] at h
       simp only [Bool.not_false, Bool.or_self, if_true]
       obtain ⟨s4, hs4, h4⟩ := Outcome.bind_eq_ok.mp h
       simp only [hs4, Outcome.ok_bind]
       cases s4 with
       | some x => exact h4
       | none => simp at h4
+
+open Utv.C12M in
+/-- with no_explicit_cast alone the skeleton returns its lenient result as soon as the strict pass finds a member -/
+theorem unionStages_nec (exact : Bool) (pass : Flags → Outcome (Option V)) (v r : V)
+    (hs : ∃ x, pass ⟨true, true⟩ = .ok (some x))
+    (h : unionStages exact pass ⟨true, false⟩ v = .ok r) : unionStages exact pass ⟨false, false⟩ v = .ok r := by
+  obtain ⟨x, hx⟩ := hs
+  unfold unionStages at h ⊢
+  split at h
+  · rename_i h1; simp only [h1, if_true]; exact h
+  · rename_i h1; simp only [h1]
+    simp only [Bool.not_false, Bool.true_or, Bool.or_true, if_true, hx, Outcome.ok_bind] at h ⊢
+    exact h
+
+open Utv.C12M in
+/-- **C12_union_ndl**: a Union of plain members parsed with no_data_loss (alone or together with
+no_explicit_cast) returns exactly what it returns without preferences — for *every* member converter. -/
+theorem C12_union_ndl (conv : Flags → Target → V → Outcome V) (n : Bool) (ts : List Target) (v r : V)
+    (h : unionParse conv ⟨n, true⟩ ts v = .ok r) : unionParse conv ⟨false, false⟩ ts v = .ok r :=
+  unionStages_ndl _ _ n v r h
 
 open Utv.C12M in
 /-- known defect `union-member-choice-under-nec`: with no_explicit_cast alone, when no member accepts the value
@@ -890,23 +907,55 @@ theorem C12_union_mono_partial (conv : Flags → Target → V → Outcome V) (f 
   cases d
   · cases n
     · exact h
-    · -- no_explicit_cast only, and some member accepts strictly: the strict stage decides in both runs
-      simp only [KnownDefect.unionNecChoice, Bool.not_false, Bool.true_and] at hk
-      unfold unionParse at h ⊢
-      split at h
-      · rename_i h1; simp only [h1, if_true]; exact h
-      · rename_i h1; simp only [h1]
-        simp only [Bool.not_false, Bool.true_or, Bool.or_true, if_true] at h ⊢
-        cases hs : firstOk (fun t => conv ⟨true, true⟩ t v) ts with
-        | ok o =>
-          cases o with
-          | some x => simp only [hs, Outcome.ok_bind] at h ⊢; exact h
-          | none => simp [hs] at hk
-        | perr e => simp [hs] at h
-        | escape e => simp [hs] at h
-        | diverge => simp [hs] at h
-        | unmodelled w => simp [hs] at h
-  · exact C12_union_ndl conv n ts v r h
+    · simp only [KnownDefect.unionNecChoice, Bool.not_false, Bool.true_and] at hk
+      refine unionStages_nec _ _ v r ?_ h
+      cases hs : firstOk (fun t => conv ⟨true, true⟩ t v) ts with
+      | ok o =>
+        cases o with
+        | some x => exact ⟨x, rfl⟩
+        | none => simp [hs] at hk
+      | perr e => simp [hs] at hk
+      | escape e => simp [hs] at hk
+      | diverge => simp [hs] at hk
+      | unmodelled w => simp [hs] at hk
+  · exact unionStages_ndl _ _ n v r h
+
+open Utv.C12M in
+/-- **C12_union_member_isolation**: each member of a pass runs in its own sub-context, so a pass is "the first
+member that converts in a clean context" — whether a member is a Rule (which would trip over an error left in
+a shared context) does not matter. -/
+theorem C12_union_member_isolation (ms : List (Bool × Outcome V)) :
+    passFresh ms = passFresh (ms.map fun m => (false, m.2)) := by
+  induction ms with
+  | nil => rfl
+  | cons m rest ih =>
+    obtain ⟨isRule, clean⟩ := m
+    cases isRule
+    · simp only [List.map_cons, passFresh, runMember]
+      cases clean <;> simp [ih]
+    · simp only [List.map_cons, passFresh, runMember]
+      cases clean <;> simp [ih]
+
+open Utv.C12M in
+/-- the model tells the two apart: with one context shared by a pass (the hoisted `with`), a failing Rule
+poisons the next Rule and the pass finds nothing -/
+theorem C12_union_shared_context_witness :
+    ∃ ms : List (Bool × Outcome V), passFresh ms = .ok (some .none) ∧ passShared false ms = .ok none :=
+  ⟨[(true, .perr .typeError), (true, .ok .none)], by rfl, by rfl⟩
+
+open Utv.C12M in
+/-- **C12_union_ty_mono_partial**: the same for Unions whose members are parametrised generics / constrained
+Rules (`List[int] | List[float]`, `Dict[…]`, `Tuple[…]`, Rule | Rule): under no_data_loss (± no_explicit_cast)
+always, under no_explicit_cast alone when some member accepts the value strictly. -/
+theorem C12_union_ty_mono_partial (P : Prims) (E : Env) (f : Flags) (ts : List Ty) (v r : V)
+    (hk : f = ⟨true, false⟩ → ∃ x, passFresh (ts.map fun t => (t.isRule, parseTy P E ⟨true, true⟩ t v)) = .ok (some x))
+    (h : unionParseTy P E f ts v = .ok r) : unionParseTy P E ⟨false, false⟩ ts v = .ok r := by
+  obtain ⟨n, d⟩ := f
+  cases d
+  · cases n
+    · exact h
+    · exact unionStages_nec _ _ v r (hk rfl) h
+  · exact unionStages_ndl _ _ n v r h
 
 /-- `str(3.5)` for the witness below -/
 def Pstr : Prims := { P0 with strOf := fun _ => .ok "3.5" }
@@ -946,5 +995,36 @@ theorem C12_ndl_dataclass_instances (isExact isInst : V → Bool) (allowSub n : 
         · simp only [hc] at h ⊢; exact h
       | _ => simpa [dataclassStep] using h
     · cases v <;> simpa [dataclassStep] using h
+
+/-! ### preferences that arrive by inheritance / from an outer class (base.py:41-64, options.py:249-258) -/
+
+/-- `getattr(cls, '__options__', None)` along the MRO (the class itself first): the nearest declaration -/
+def declaredFlags : List (Option Flags) → Flags
+  | [] => ⟨false, false⟩
+  | some f :: _ => f
+  | none :: rest => declaredFlags rest
+
+/-- `Options.make_context(context=outer)`: the outer context's options replace the class's own only when the
+outer ones say `override` and the own ones do not -/
+def contextFlags (own : Flags × Bool) (outer : Option (Flags × Bool)) : Flags :=
+  match outer with
+  | some (fo, true) => if own.2 then own.1 else fo
+  | _ => own.1
+
+/-- **C12_inherited_preferences**: a class that declares no options of its own (at any depth) is parsed under
+the preferences of its nearest base — so every promise above applies to it unchanged; and an overriding outer
+class imposes its preferences on a nested class that does not override itself. -/
+theorem C12_inherited_preferences (pre : List (Option Flags)) (f : Flags) (rest : List (Option Flags))
+    (hp : ∀ x ∈ pre, x = none) :
+    declaredFlags (pre ++ some f :: rest) = f ∧
+    (∀ own fo, contextFlags (own, false) (some (fo, true)) = fo) := by
+  constructor
+  · induction pre with
+    | nil => rfl
+    | cons a as ih =>
+      have ha : a = none := hp a (List.mem_cons_self ..)
+      subst ha
+      exact ih (fun x hx => hp x (List.mem_cons_of_mem _ hx))
+  · intro own fo; rfl
 
 end Utv.C12
